@@ -4,6 +4,7 @@
  *
  * Tree: root { i (int, set)  s (string, unset)  l (int list, 2 values)  m (multi section, 2 harness-built
  *        instances + 1 created by the real cfg_setopt() while another filter was installed)  g (function) }
+ *       ... e (int list, emptied) declared last
  *       each m instance { a (int, set)  z (string; unset in instance 1) }
  */
 #include <stdio.h>
@@ -23,8 +24,9 @@ static int v_fprintf(FILE *fp, const char *fmt, ...);
 #ifndef INDENT0
 #define INDENT0 0
 #endif
-#define NOPT 9 /* 5 root options + 2 instances x 2 */
-enum { R_I, R_S, R_L, R_M, R_G, I0_A, I0_Z, I1_A, I1_Z };
+#define NOPT 10 /* 6 root options + 2 instances x 2 */
+enum { R_I, R_S, R_L, R_M, R_G, R_E, I0_A, I0_Z, I1_A, I1_Z };
+#define NROOTOPT 6
 #define NINST 2
 #ifndef HAS_ROOT
 #define HAS_ROOT 1
@@ -118,6 +120,8 @@ static int v_fprintf(FILE *fp, const char *fmt, ...)
 		   !strcmp(fmt, "%s")) {
 		if (cur_opt >= 0 && (!strcmp(fmt, "%ld") || !strcmp(fmt, "\"")))
 			builtin_val[cur_opt]++;
+	} else if (!strcmp(fmt, "%s \"") || !strcmp(fmt, "\" {\n")) {
+		/* titled section header in two pieces (not used by this tree) */
 	} else if (!strcmp(fmt, ", ") || !strcmp(fmt, "}")) {
 		/* list separators / list end */
 	} else if (!strcmp(fmt, "/* %s */\n")) {
@@ -211,7 +215,7 @@ int main(void)
 	(void)filt_old;
 	cfg_print_filter_func_t eff[NOPT];
 
-	ropts = alloc_opts(5);
+	ropts = alloc_opts(NROOTOPT);
 	init_opt(&ropts[0], "i", CFGT_INT, CFGF_DEFINIT);
 	alloc_values(&ropts[0], 1);
 	ropts[0].values[0]->number = 3;
@@ -225,6 +229,7 @@ int main(void)
 	init_opt(&ropts[3], "m", CFGT_SEC, CFGF_MULTI);
 	ropts[3].subopts = sub;
 	init_opt(&ropts[4], "g", CFGT_FUNC, CFGF_NONE);
+	init_opt(&ropts[5], "e", CFGT_INT, CFGF_LIST | CFGF_DEFINIT); /* a list that has been emptied */
 	init_cfg(&root, "root", ropts, CFGF_NONE);
 	mk_inst(0, 1);
 	mk_inst(1, 0);
@@ -232,7 +237,7 @@ int main(void)
 	ropts[3].values[0]->section = inst[0];
 	ropts[3].values[1]->section = inst[1];
 
-	for (k = 0; k < 5; k++) {
+	for (k = 0; k < NROOTOPT; k++) {
 		optp[k] = &ropts[k];
 		ctx_of[k] = &root;
 		depth_of[k] = 0;
@@ -336,6 +341,8 @@ int main(void)
 				}
 				last = footer_after[j];
 			}
+		if (printed[R_E] == 1)
+			V_ASSERT(order_seen[R_E] > last, "[C19] an option declared after a section is written after that section's instances");
 	}
 	V_WITNESS("end of harness");
 	return 0;
